@@ -494,23 +494,25 @@ func runC13(env *Env) {
 	seen := map[string]bool{}
 	for len(items) < nCases {
 		var d c13Def
-		d.now0 = 100
+		// timers are made at different clock times (the same definition text made at another time is another timer)
+		base := 100 + 40*rng.Intn(3)
+		d.now0 = base
 		switch rng.Intn(5) {
 		case 0:
-			d.kind, d.due = 0, 100+rng.Intn(20)-3
+			d.kind, d.due = 0, base+rng.Intn(20)-3
 		case 1:
-			d.kind, d.due = 1, 100+1+rng.Intn(20)
+			d.kind, d.due = 1, base+1+rng.Intn(20)
 		default:
 			d.kind = 2
 			d.reps = rng.Intn(5) - 1
 			d.iv = 1 + rng.Intn(6)
 			d.start, d.end = -1, -1
 			if rng.Intn(2) == 0 {
-				d.start = 100 + rng.Intn(12) - 2
+				d.start = base + rng.Intn(12) - 2
 			}
 			if rng.Intn(3) == 0 {
 				if d.start < 0 {
-					d.end = 100 + 1 + rng.Intn(25)
+					d.end = base + 1 + rng.Intn(25)
 				} else { // R/start/end form: the interval is end-start
 					d.end = d.start + 1 + rng.Intn(8)
 					d.endAsStartEnd = true
@@ -545,7 +547,7 @@ func runC13(env *Env) {
 				add(d.end)
 			}
 		}
-		grid = append(grid, 1000, 2000, 90)
+		grid = append(grid, 1000, 2000, base-10)
 		n := 1 + rng.Intn(maxOps)
 		ops := []int{}
 		cur := d.now0
